@@ -318,6 +318,9 @@ func solveAll(obls []*Obligation, dir string, timeout int, all bool) {
 	sem := make(chan struct{}, 12)
 	for _, o := range obls {
 		o := o
+		if o.Kind == "structural" {
+			continue
+		}
 		if o.Goal == "true" || o.Guard == "false" {
 			if o.Kind != "vacuity" {
 				o.Status, o.Solver = "unsat", "syntactic"
